@@ -156,8 +156,8 @@ let handle (toks : Stdlib.String.t list) : Stdlib.String.t =
   | "w" :: rest ->
       (match parse_cmd rest with
        | Some c ->
-           (* the reserved-field-name check on the stored (trimmed) name; field.Make trims *)
-           (match exec_n trim_ws true !r.r_live c with
+           (* the reserved-field-name checks of SET and FSET, both on the stored (trimmed) name; field.Make trims *)
+           (match exec_n trim_ws trim_ws trim_ws !r.r_live c with
             | None -> "err:invalid"
             | Some _ -> do_w (norm trim_ws c))
        | None -> (match parse_hcmd rest with Some c -> do_h c | None -> "?bad command"))
